@@ -19,6 +19,9 @@ type Config struct {
 	Generator bool              `json:"generator"`
 	Fail      bool              `json:"fail"` // the generator returns an error
 	Files     map[string][]byte `json:"files"`
+	// Channel: which of plugin.Plugin's Reader / Writer fields are set explicitly (to the standard
+	// streams, so that the conversation is the same): "" neither, "reader", "writer", "both"
+	Channel string `json:"channel"`
 }
 
 type generator struct{ c Config }
@@ -43,6 +46,14 @@ func main() {
 	p := &plugin.Plugin{Name: c.Name}
 	if c.Generator {
 		p.ServiceGenerator = generator{c}
+	}
+	switch c.Channel {
+	case "reader":
+		p.Reader = os.Stdin
+	case "writer":
+		p.Writer = os.Stdout
+	case "both":
+		p.Reader, p.Writer = os.Stdin, os.Stdout
 	}
 	plugin.Main(p)
 }
